@@ -50,7 +50,7 @@ fn main() {
     c04net::install_panic_monitor();
     // C01 mode: the mock session server's port has to be known (and exported for hook H1) before any
     // other thread exists
-    let session_listener = if cli.prop == "C01" {
+    let session_listener = if cli.prop == "C01" || cli.prop == "C11" {
         let l = std::net::TcpListener::bind("127.0.0.1:0").expect("bind loopback");
         let port = l.local_addr().expect("addr").port();
         // SAFETY: single-threaded at this point
@@ -75,7 +75,9 @@ fn main() {
         match cli.prop.as_str() {
             "C14" => c14::run_prop(&cli).await,
             // C01 through the application: the configured (or default) authentication service decides
-            "C01" => match session_listener {
+            // (C11 through the application: the serverId that reaches the session service is the hash a
+            // client computes from what it was sent on the wire)
+            "C01" | "C11" => match session_listener {
                 Some(l) => c01net::run_prop(&cli, c01net::start_mock(l)).await,
                 None => 2,
             },
